@@ -1,5 +1,5 @@
 """C07 - results depend only on configuration and seed, not on call order or schedule."""
-import json, random, io, contextlib, warnings, math
+import json, random, io, contextlib, warnings, math, os
 import numpy as np
 from harness import solverlib as L, solvergen as G
 from harness.props import solver_common as SC
@@ -48,13 +48,17 @@ def generate(rng, n, tier):
                 for o in cfg2:
                     if o["op"] == "SetInitialPoints":
                         o["how"], o["var"] = "multinormal", rng.choice([0.25, 1.0])
+            if c["solver"] != "DE2" and rng.random() < 0.3:
+                # an evaluation monitor that already holds records, and limits that count from now on (new=True): neither call may read the other's state
+                cfg2 = [o for o in cfg2 if o["op"] not in ("SetEvalMonitor", "SetLimits")]
+                cfg2 += [dict(op="SetEvalMonitor", new=False, prefill=rng.choice([5, 25])), dict(op="SetLimits", g=None, e=rng.choice([8, 20, 40]), new=True)]
             perms = []
             for _ in range(rng.choice([3, 4, 5])):
                 p = list(range(len(cfg2))); rng.shuffle(p); perms.append(p)
             c.pop("ops")
             c.update(kind="order", cfg=cfg2, tail=tail, perms=perms)
             yield c
-        elif r < 0.8:
+        elif r < 0.78:
             c = G.gen_script(rng, nops=(2, 6), p_mid=0.2, solvers=("DE2",), allow_modes=rng.random() < 0.5)   # incl. clip=False: random re-draws while trial vectors are built
             if rng.random() < 0.25:       # a run in which trial vectors keep leaving the box and are re-drawn at random (clip=False)
                 nd = c["ndim"]; lo = [rng.choice([-1.0, 0.0]) for _ in range(nd)]; hi = [l + rng.choice([1.0, 2.0]) for l in lo]
@@ -69,14 +73,22 @@ def generate(rng, n, tier):
                         o["tight"], o["clip"] = rng.choice([None, True]), False
             c.update(kind="map", maps=["reversed", "shuffled", "threads"], mapseed=rng.randrange(10 ** 6))
             yield c
-        elif r < 0.87:
+        elif r < 0.85:
             # one configuration reached along different API paths: SetConstraints + Step loop, Step(constraints=c) then Steps, Solve(constraints=c)
             nd = rng.choice([2, 3])
             lo = [rng.choice([-1.0, 0.0]) for _ in range(nd)]
             yield dict(kind="paths", solver=rng.choice(["DE", "DE2", "NM", "POW"]), ndim=nd, npop=rng.choice([4, 6]), lo=lo, hi=[l + rng.choice([2.0, 3.0]) for l in lo],
                        a=[G.grid(rng, -1, 2) + 0.2 for _ in range(nd)], q=rng.choice([0.5, 0.25]), nsteps=rng.choice([3, 4, 6]), ranges=rng.random() < 0.7,
                        seed=rng.randrange(10 ** 6))
-        elif r < 0.9:
+        elif r < 0.90:
+            # no state shared between solvers of one process: a run is the same whether or not another solver (same box, other range mode) ran before
+            nd = rng.choice([2, 3])
+            lo = [rng.choice([-1.0, 0.0]) for _ in range(nd)]
+            modes = rng.sample([[None, None], [True, None], [None, True], [None, False], [True, True]], 2) if rng.random() < 0.4 else \
+                rng.sample([[None, True], [None, False]], 2)
+            yield dict(kind="prior", solver=rng.choice(["NM", "POW", "DE", "DE2"]), ndim=nd, npop=4, lo=lo, hi=[l + rng.choice([1.0, 2.0]) for l in lo],
+                       a=[G.grid(rng, 1, 3) + 0.2 for _ in range(nd)], mode_b=modes[0], mode_a=modes[1], nsteps=rng.choice([3, 5]), seed=rng.randrange(10 ** 6))
+        elif r < 0.93:
             yield dict(kind="seed", seed=rng.choice([0, 0, 1, 7, 2 ** 31, 123456789]), ndim=rng.choice([1, 2]), npts=rng.choice([3, 4]),
                        how=rng.choice(["buckshot", "multinormal", "de"]), cost=G.gen_cost(rng, 2))
         else:
@@ -145,6 +157,8 @@ def _run(case):
         return dict(a=_run_seeded(case), b=_run_seeded(case))
     if k == "paths":
         return _run_paths(case)
+    if k == "prior":
+        return _run_prior(case)
     return _run_ensemble(case)
 
 
@@ -241,6 +255,41 @@ def _run_paths(case):
     return dict(paths=res)
 
 
+def _prior_single(case, mode, nsteps):
+    from mystic.termination import VTR
+    if True:
+        random.seed(case["seed"]); np.random.seed(case["seed"] % (2 ** 31))
+        s = L.build_solver(case["solver"], case["ndim"], case["npop"])
+        if case["solver"] in ("DE", "DE2"):
+            s.SetRandomInitialPoints(list(case["lo"]), list(case["hi"]))
+        else:
+            s.SetInitialPoints([(l + h) / 2 for l, h in zip(case["lo"], case["hi"])])
+        kw = {}
+        if mode[0] is not None: kw["tight"] = mode[0]
+        if mode[1] is not None: kw["clip"] = mode[1]
+        s.SetStrictRanges(list(case["lo"]), list(case["hi"]), **kw)
+        s.SetTermination(VTR(-1.0)); s.SetObjective(_Cost(dict(kind="quad", a=case["a"])))
+        for _ in range(nsteps):
+            s.Step()
+        return dict(pop=[[float(v) for v in p] for p in s.population], popE=[float(e) for e in s.popEnergy], bestX=[float(v) for v in s.bestSolution],
+                    bestE=float(s.bestEnergy), evals=int(s.evaluations))
+
+
+def _run_prior(case):
+    # the reference run happens in a fresh interpreter (nothing else has been configured there); here, another solver runs first
+    import subprocess, sys
+    code = ("import sys, json, warnings; warnings.simplefilter('ignore'); sys.path.insert(0, %r); from harness.props import c07; "
+            "c = json.loads(sys.stdin.read()); print('@@' + json.dumps(c07._prior_single(c, c['mode_b'], c['nsteps'])))") % \
+        os.path.dirname(os.path.dirname(os.path.dirname(os.path.abspath(__file__))))
+    p = subprocess.run([sys.executable, "-c", code], input=json.dumps(case), capture_output=True, text=True, timeout=120)
+    line = [l for l in p.stdout.splitlines() if l.startswith("@@")]
+    if not line:
+        raise RuntimeError("reference interpreter failed: " + (p.stderr or p.stdout)[-300:])
+    alone = json.loads(line[0][2:])
+    _prior_single(case, case["mode_a"], 2)
+    return dict(alone=alone, after=_prior_single(case, case["mode_b"], case["nsteps"]))
+
+
 def _run_ensemble(case):
     from mystic.solvers import LatticeSolver, BuckshotSolver, NelderMeadSimplexSolver, PowellDirectionalSolver
     from mystic.termination import VTR
@@ -335,6 +384,10 @@ def oracle(case, out):
                 f.append(SC.fail("config_order_irrelevant", site, "result-depends-on-how-constraints-were-given:" + name,
                                  dict(fields=[q for q in ref if ref[q] != o[q]], set=ref["bestX"], got=o["bestX"])))
                 break
+    elif k == "prior":
+        if out["alone"] != out["after"]:
+            f.append(SC.fail("same_seed_same_run", "AbstractSolver", "run-depends-on-solvers-configured-earlier-in-the-process",
+                             dict(fields=[q for q in out["alone"] if out["alone"][q] != out["after"][q]], mode=case["mode_b"], earlier=case["mode_a"])))
     elif k == "seed":
         if out["a"] != out["b"]:
             f.append(SC.fail("same_seed_same_run", "tools.random_seed", "same-seed-different-run:" + case["how"], dict(seed=case["seed"], a=out["a"], b=out["b"])))
@@ -399,6 +452,9 @@ def classify(case, out):
         n = 2
     elif case["kind"] == "paths":
         tags += ["solver:" + case["solver"], "ranges:%s" % case["ranges"]]
+        n = case["nsteps"]
+    elif case["kind"] == "prior":
+        tags += ["solver:" + case["solver"]]
         n = case["nsteps"]
     else:
         tags += ["ens:" + case["ens"], "nested:" + case["nested"]]
